@@ -101,6 +101,9 @@ pub struct ModSpec {
     /// scripted body operations applied to received data messages (see bodies::apply_ops)
     #[serde(default)]
     pub rx_ops: Vec<u8>,
+    /// acts performed from at_sim_end (whatever they emit is never processed by this simulation)
+    #[serde(default)]
+    pub end_acts: Vec<Act>,
 }
 
 #[derive(Serialize, Deserialize, Clone, Debug, PartialEq, Eq, Hash)]
@@ -218,6 +221,7 @@ pub fn uid_of(m: usize, site: usize, act: usize, inc: u16) -> u32 {
     ((m as u32 & 0xff) << 24) | ((u32::from(inc) & 0xf) << 20) | ((site as u32 & 0x3ff) << 10) | (act as u32 & 0x3ff)
 }
 pub const RX_SITE_BASE: usize = 0x200;
+pub const END_SITE: usize = 0x1f0;
 pub const PE_SITE_BASE: usize = 0x300;
 
 pub fn uid_parts(uid: u32) -> (usize, u16, usize, usize) {
@@ -502,6 +506,12 @@ impl Module for ScriptMod {
             }
             rec(self.idx, Ev::PanicNow);
             panic!("scripted panic in at_sim_end of module {}", self.idx);
+        }
+        let acts = self.spec().end_acts.clone();
+        for (ai, a) in acts.iter().enumerate().take(8) {
+            if matches!(a, Act::Send { .. } | Act::SelfMsg { .. } | Act::Random) && !self.do_act(END_SITE, ai, a) {
+                break;
+            }
         }
         Ok(())
     }
